@@ -371,6 +371,12 @@ func sfSnap(nd *sfNode) *sfNode {
 	return &cp
 }
 
+// sfStatSysInfo is a plain FileInfo whose Sys() is an (empty) *FileStat, as a handler relaying another server's
+// listing might leave it: the attributes are what the FileInfo methods say.
+type sfStatSysInfo struct{ sfPlainInfo }
+
+func (e sfStatSysInfo) Sys() any { return &FileStat{} }
+
 func (fs *sfs) info(p string, nd *sfNode) os.FileInfo {
 	i := &sfInfo{name: path.Base(p), nd: sfSnap(nd), size: int64(len(nd.data))}
 	switch nd.shape {
@@ -380,6 +386,8 @@ func (fs *sfs) info(p string, nd *sfNode) os.FileInfo {
 		return sfExtInfo{i}
 	case 3:
 		return sfSysInfo{i}
+	case 4:
+		return sfStatSysInfo{sfPlainInfo{i}}
 	}
 	return i
 }
